@@ -72,6 +72,23 @@ def run(res, b, tier, seed):
         for form in ("if b {\n\t%s\n}\n", "if b {\n\tprint(1)\n} else if b {\n\t%s\n} else {\n\t%s\n}\n", "for b {\n\t%s\n\tbreak\n}\n", "func g9() {\n\t%s\n}\ng9()\n",
                      "switch i {\ncase 1:\n\t%s\ndefault:\n\t%s\n}\n", "for i9 := 0; i9 < 1; i9++ {\n\t%s\n}\n"):
             progs.append(c13.ZOO_PRELUDE + form.replace("%s", st))
+    # the builtins that talk to the outside world as CONDITIONS of every control construct (round 16: C16-I, an else-if whose condition
+    # contains input / read / a program call is nested into an else block - and the final else is emitted twice)
+    io_conds = ['exists(s)', 'read(s) == "x"', 'input() == "y"', 'input("p") != s', 'len(read(s)) > 0', '!exists(s + "k")', 'b && exists(s)',
+                'itoa(len(input())) == s']
+    for e in io_conds:
+        for form in ("if %s {\n\tprint(1)\n}\n", "if b {\n\tprint(1)\n} else if %s {\n\tprint(2)\n} else {\n\tprint(3)\n}\n",
+                     "if b {\n\tprint(1)\n} else if %s {\n\tprint(2)\n}\n",
+                     "if %s {\n\tprint(1)\n} else if %s {\n\tprint(2)\n} else if b {\n\tprint(3)\n} else {\n\tprint(4)\n}\n",
+                     "if b {\n\tprint(1)\n} else if i == 2 {\n\tprint(2)\n} else if %s {\n\tprint(3)\n} else {\n\tprint(4)\n}\nprint(5)\n",
+                     "func g9() int {\n\tif b {\n\t\treturn 1\n\t} else if %s {\n\t\treturn 2\n\t} else {\n\t\tprint(3)\n\t}\n\treturn 4\n}\nprint(g9())\n",
+                     "for %s {\n\tbreak\n}\n", "for i9 := 0; %s; i9++ {\n\tbreak\n}\n", "switch {\ncase %s:\n\tprint(1)\ndefault:\n\tprint(2)\n}\n",
+                     "switch {\ncase b:\n\tprint(1)\ncase %s:\n\tprint(2)\ndefault:\n\tprint(3)\n}\n",
+                     "for i9 := 0; i9 < 2; i9++ {\n\tif b {\n\t\tcontinue\n\t} else if %s {\n\t\tbreak\n\t} else {\n\t\tprint(i9)\n\t}\n}\n"):
+            progs.append(c13.ZOO_PRELUDE + form.replace("%s", e))
+    for form in ('switch read(s) {\ncase "a":\n\tprint(1)\ncase input():\n\tprint(2)\ndefault:\n\tprint(3)\n}\n',
+                 'so9, se9, c9 := @ls("a")\nif b {\n\tprint(1)\n} else if c9 == 0 {\n\tprint(so9)\n} else {\n\tprint(se9)\n}\n'):
+        progs.append(c13.ZOO_PRELUDE + form)
     for src in c13.builtin_near_misses(rng, 150 if quick else 4000):
         progs.append(src)
     # string literals with characters that mean something to the shells, in every place a literal can stand (round 9: C16-A, the quote of a
